@@ -1310,7 +1310,8 @@ class _FuncEval:
             for c in sm.calls:
                 self.s.calls.append(CallRec(c.fn, c.args, c.kwargs, st.cond + c.cond, tuple(self.loop_stack), n,
                                             c.result, tuple(self.try_stack), c.inlined))
-            self.s.calls.append(CallRec(fn, tuple(args), tuple(sorted(kwargs.items())), st.cond,
+            ca, ck = self.canon_call(fn, list(args), dict(kwargs))
+            self.s.calls.append(CallRec(fn, tuple(ca), tuple(sorted(ck.items())), st.cond,
                                         tuple(self.loop_stack), n, val, tuple(self.try_stack), True))
             return val
         return self.record(fn, args, kwargs, st, n)
